@@ -194,7 +194,14 @@ def w_inverse(ctx, rng, i):
         opt = "own_trilist_differs=%s" % (not np.array_equal(np.sort(tl2, axis=None), np.sort(s.trilist, axis=None)))
     else:
         t, _ = tx.make(rng, kind, d)
+        how = None
+        if isinstance(t, mt.Homogeneous) and rng.random() < 0.35 and not kind.startswith("Int"):
+            # the transform to invert is itself a product (a scale accumulated over several steps, a pose updated in place)
+            with taps.quiet():
+                t, how = tx.composed(rng, t, kind, d)
         inv = t.pseudoinverse()
+        if how:
+            opt = "product:" + how
         if isinstance(t, mt.ThinPlateSplines):
             opt = "%s/%g" % (type(t.kernel).__name__, t.min_singular_val)
         if hasattr(t, "allow_mirror"):
